@@ -5,25 +5,39 @@
 (* part of it), the number n of returned points, gdev (largest deviation of a returned wavenumber from nat[lo..hi]),  *)
 (* dev / tdev (largest deviation of the returned spectrum / layer array from the FULL native computation of a freshly *)
 (* built model at these points, units of 1e-13, relative / absolute), and the index range plo..phi the SAME object    *)
-(* computed in its previous evaluation (0, 0: none).  TLC re-evaluates the clip of Grid.tla and checks               *)
-(*   clip   the computed grid is Grid!GClip of the CURRENT request (the native grid when no grid is passed or         *)
-(*          cutoff_grid = False) -- GridHistory!OnClippedGrid                                                         *)
+(* computed in its previous evaluation (0, 0: none), and the range flo..fhi a FRESHLY built model returns for the      *)
+(* same request.  TLC checks                                                                                          *)
+(*   clip   the computed grid is a contiguous part of the native grid covering the observation's own range (the       *)
+(*          native grid when no grid is passed or cutoff_grid = False)                                                *)
+(*   grid-depends-on-history   it is the grid a fresh model computes for the CURRENT request                          *)
 (*   value  the values are those of the full native computation at these points -- GridHistory!EvalEqualsFull         *)
-(* and classifies the event by what an under-keyed memo of GridHistory.tla would confuse it with.                     *)
+(* reports whether it is exactly the documented clip Grid!GClip of the request (GridHistory!OnClippedGrid; the        *)
+(* statement does not prescribe the margin, so this is a note, not a verdict), and classifies the event by what an    *)
+(* under-keyed memo of GridHistory.tla would confuse it with.                                                         *)
 EXTENDS Grid, IOUtils, TLCExt
 VARIABLE l
 TraceLog == ndJsonDeserialize(IOEnv.TRACE_FILE)
 
 Full(e)  == Len(e.oc) = 0 \/ e.cut = 0
+\* the documented clip (Grid!GClip: observation range plus the widest mid-point width on either side)
 ExpLo(e) == IF Full(e) THEN 1 ELSE GClipLo(e.nat, e.oc)
 ExpHi(e) == IF Full(e) THEN Len(e.nat) ELSE GClipHi(e.nat, e.oc)
-ClipOk(e) == e.lo = ExpLo(e) /\ e.hi = ExpHi(e) /\ e.n = e.hi - e.lo + 1 /\ e.gdev = 0
+Exact(e) == e.lo = ExpLo(e) /\ e.hi = ExpHi(e)
+\* native points inside the observation's own range
+Inner(e) == {i \in 1..Len(e.nat) : e.nat[i] >= e.oc[1] /\ e.nat[i] <= e.oc[Len(e.oc)]}
+\* what the statement requires of the computed grid: a contiguous part of the native grid that covers the
+\* observation's range (the whole native grid when no grid is passed or cutoff_grid = False) ...
+ClipOk(e) == /\ e.lo >= 1 /\ e.hi <= Len(e.nat) /\ e.lo <= e.hi /\ e.n = e.hi - e.lo + 1 /\ e.gdev = 0
+             /\ IF Full(e) THEN e.lo = 1 /\ e.hi = Len(e.nat)
+                ELSE \A i \in Inner(e) : e.lo <= i /\ i <= e.hi
+\* ... that depends on the CURRENT request only: the grid a freshly built model returns for it
+GridOk(e) == e.lo = e.flo /\ e.hi = e.fhi
 ValueOk(e) == e.dev >= 0 /\ e.dev <= e.tol /\ e.tdev >= 0 /\ e.tdev <= e.tol
 
 Class(e) == IF e.plo = 0 THEN "first-evaluation"
-            ELSE IF e.plo = ExpLo(e) /\ e.phi = ExpHi(e) THEN "same-grid-again"
-            ELSE IF e.phi - e.plo = ExpHi(e) - ExpLo(e) THEN "same-size-elsewhere"
-            ELSE IF e.plo = ExpLo(e) THEN "same-start-other-length"
+            ELSE IF e.plo = e.flo /\ e.phi = e.fhi THEN "same-grid-again"
+            ELSE IF e.phi - e.plo = e.fhi - e.flo THEN "same-size-elsewhere"
+            ELSE IF e.plo = e.flo THEN "same-start-other-length"
             ELSE IF e.plo = 1 /\ e.phi = Len(e.nat) THEN "after-full-grid"
             ELSE IF Full(e) THEN "full-after-window"
             ELSE "other-window"
@@ -32,8 +46,9 @@ Bad(e, why) == PrintT(<<"BAD", ToJson([id |-> e.id, why |-> why])>>)
 Init == l = 1
 Step == /\ l <= Len(TraceLog)
         /\ LET e == TraceLog[l] IN
-               /\ PrintT(<<"CLS", ToJson([id |-> e.id, cls |-> Class(e)])>>)
+               /\ PrintT(<<"CLS", ToJson([id |-> e.id, cls |-> Class(e), exact |-> Exact(e)])>>)
                /\ IF ClipOk(e) THEN TRUE ELSE Bad(e, "clip")
+               /\ IF GridOk(e) THEN TRUE ELSE Bad(e, "grid-depends-on-history")
                /\ IF ValueOk(e) THEN TRUE ELSE Bad(e, "value")
         /\ l' = l + 1
 Spec == Init /\ [][Step]_l
